@@ -1,12 +1,15 @@
 import Driver.Glob
 import Driver.Needs
 import Driver.Matrix
+import Driver.Expr
 
 def dispatch (line : String) : String :=
   match (line.trimAscii.toString.splitOn " ").filter (· ≠ "") with
   | "glob" :: args => Driver.Glob.handle args
   | "needs" :: args => Driver.Needs.handle args
   | "matrix" :: args => Driver.Matrix.handle args
+  | "lex" :: args => Driver.Expr.handleLex args
+  | "parse" :: args => Driver.Expr.handleParse args
   | _ => "bad-op"
 
 partial def loop (hin : IO.FS.Stream) (hout : IO.FS.Stream) : IO Unit := do
